@@ -23,7 +23,7 @@ RULE = ("api leg: base cooler of resolution 1 (8+4 bp genome) x ALL 2^7 subsets 
         "indexes, attributes), each derived level == ref_coarsen(base, r/base) for a supplied base dividing r, V on every level. "
         "Non-trivial: >=1 derived level. Distinct by construction.")
 BOUNDS = {"quick": "all subsets at chunksize 1e6, chunksize {1,3} on every 8th subset; schedule deviation bound 1",
-          "thorough": "all subsets x chunksize {1,3,1e6}; 3 base contents; schedule deviation bound 2"}
+          "thorough": "all subsets x chunksize {1,3,1e6}; 3 base contents; base 3 x all subsets of {3,6,9,12,4}; schedule deviation bound 2"}
 ASSUMPTIONS = ["pixel value columns not requested via `columns` are not expected in the output (documented default: count only)",
                "with independent base data a derived level must equal the coarsening of SOME supplied base that divides it"]
 EXPECT_CLASSES = {"*": ["zoom:ok", "zoom:refused", "multi-base", "sched", "cli"]}
@@ -31,6 +31,7 @@ EXPECT_CLASSES = {"*": ["zoom:ok", "zoom:refused", "multi-base", "sched", "cli"]
 SIZES = [("chr2", 8), ("chr10", 4)]
 TARGETS1 = [1, 2, 3, 4, 6, 8, 12]
 TARGETS2 = [2, 3, 4, 6, 12]
+TARGETS3 = [3, 6, 9, 12, 4]
 
 
 def base_bins(res):
@@ -79,6 +80,9 @@ def units(tier):
             yield {"leg": "api", "base": 1, "mask": mask, "content": content}
         for mask in range(1 << len(TARGETS2)):
             yield {"leg": "api", "base": 2, "mask": mask, "content": content}
+        if th:
+            for mask in range(1 << len(TARGETS3)):
+                yield {"leg": "api", "base": 3, "mask": mask, "content": content}
     for bases in ([1, 2], [2, 3], [1, 2, 3], [2, 1]):
         for consistent in (True, False):
             for tg in ([], [4], [6], [12], [3, 4], [2, 4, 6, 12], [4, 6, 8], [1, 2, 3], [9], [12, 6, 4]):
@@ -165,7 +169,7 @@ def _api(R, unit, tier, only):
     import cooler
     th = tier == "thorough"
     base, mask, content = unit["base"], unit["mask"], unit["content"]
-    T = TARGETS1 if base == 1 else TARGETS2
+    T = TARGETS1 if base == 1 else TARGETS2 if base == 2 else TARGETS3
     targets = [t for k, t in enumerate(T) if mask >> k & 1]
     uri = base_uri(base, content)
     bins0, pix0 = base_bins(base), base_pix(base, content)
@@ -405,7 +409,7 @@ def run(unit, R, tier, only=None):
     if leg == "api":
         _api(R, unit, tier, only)
         if unit["mask"] == 0b0101010:
-            R.sample({"leg": leg, "base": unit["base"], "targets": [t for k, t in enumerate(TARGETS1 if unit["base"] == 1 else TARGETS2) if unit["mask"] >> k & 1],
+            R.sample({"leg": leg, "base": unit["base"], "targets": [t for k, t in enumerate((TARGETS1 if unit["base"] == 1 else TARGETS2 if unit["base"] == 2 else TARGETS3)) if unit["mask"] >> k & 1],
                       "genome": SIZES, "content": unit["content"]})
     elif leg == "multi":
         _multi(R, unit, only)
